@@ -63,7 +63,7 @@ CHECKS = {
              "additions/omissions; 354 x 39 labels quick, 354 x 354 thorough) x root offsets; TLC checks on the specification "
              "of each pair: values in {-1,0,1}, all documented implications, -1 a function of the reference alone, "
              "self-comparison never 0; the 12 specified values per pair are compared with the 12 public functions called in "
-             "shuffled mixed batches and singly.",
+             "shuffled mixed batches and singly. The lattice is additionally judged by a TLA+ trace spec (Trace_C11) on the values recorded for the real label pairs of the repository's chord fixtures.",
         ref="4/C11"),
     "C09": dict(
         technique="TLA+ transposition/respelling invariance checked by TLC on chord and key specifications and replayed; "
